@@ -280,7 +280,7 @@ func runC07(c *core.Ctx) {
 	if ok {
 		ctrl := []string{"if true { return 1 }", "if true { break }", "if true { continue }", "for 1 { return 2 }", "for 1 { break }", "return", "return [1]", "if false { 1 } else { return \"s\" }", "for e = [1, 2] { if e == 2 { return e } }"}
 		ctxs := []string{"[%s]", "[1, %s, 3]", "{%s: 1}", "{1: %s}", "vfn(%s)", "vnamed(1, %s)", "len(%s)", "println(%s)", "%s + 1", "1 + %s", "-%s", "!%s", "va2[%s]", "%s[0]", "(%s).k", "va2[%s:]", "va2[0:%s]",
-			"if %s { 1 }", "for %s { break }", "for x = %s { 1 }", "x = %s", "vmbig[%s] = 1", "del(vmbig[%s])", "[%s] == [%s]", "[%s] < [%s]", "{1: [%s]} == {1: [%s]}", "sort([[%s], [%s]])", "max([%s], [%s])", "catch(%s)", "error(%s)", "quote(%s)", "str(%s)", "[[%s]] + [%s]", "{[%s]: 1}[[%s]]"}
+			"if %s { 1 }", "for %s { break }", "for x = %s { 1 }", "x = %s", "vmbig[%s] = 1", "del(vmbig[%s])", "[%s] == [%s]", "[%s] < [%s]", "{1: [%s]} == {1: [%s]}", "sort([[%s], [%s]])", "max([%s], [%s])", "catch(%s)", "catch(%s) == catch(%s)", "catch(%s).value", "first(%s)", "rest(%s)", "log(%s)", "print(%s)", "(x = %s)", "json(%s)", "unjson(%s)", "eval(%s)", "sprintf(\"%v\", %s)", "keys(%s)", "type(%s)", "int(%s)", "error(%s)", "quote(%s)", "str(%s)", "[[%s]] + [%s]", "{[%s]: 1}[[%s]]"}
 		n := 0
 		for _, cx := range ctxs {
 			for _, a := range ctrl {
@@ -290,6 +290,9 @@ func runC07(c *core.Ctx) {
 				do("control", prelude, "func() { "+src+" }()")
 				do("control", prelude, "for 2 { "+src+" }")
 				do("control", prelude, "func() { for 2 { x9 = "+src+" } }()")
+				// whatever the construct evaluated to, consumed as a value by every kind of user
+				do("control", prelude, "y9 = ["+src+"]; z9 = ["+src+"]; println(y9 == z9, y9 < z9, str(y9), json(y9), {y9: 1}, sort([y9, z9]), y9 + z9, len(y9))")
+				do("control", prelude, "func() { y9 = {1: "+src+"}; z9 = {1: "+src+"}; println(y9 == z9, y9 < z9, y9 + z9, keys(y9), json(z9)) }()")
 			}
 		}
 		// references that outlive the variable they point to
